@@ -78,6 +78,7 @@ type histRun struct {
 	driftTag     map[string]string         // "cid rid" → known-finding tag of a counter seen off before
 	counterSeen  map[string]bool           // structural violations already reported (they persist)
 	strayCause   map[string]string         // "cid rid" of a stray event → the tags it got (its cause)
+	pHeld        map[string]bool           // "cid rid" attributed to finding P (gateway takes it as still held)
 	// ppoints: clock values at which the gateway was idle with at most service
 	// requests outstanding (everything published before has been processed)
 	ppoints       []int64
@@ -1033,6 +1034,35 @@ func (h *histRun) deletedSubLives(cid, rid string) bool {
 	return true
 }
 
+// reachableFromPHeld reports whether rid is reachable, in the gateway's own
+// reference graph of the connection, from a resource whose violations were
+// attributed to finding P.
+func (h *histRun) reachableFromPHeld(cid string, snap server.VerifConnSnap, rid string) bool {
+	seen := map[string]bool{}
+	var stack []string
+	for k := range h.pHeld {
+		if strings.HasPrefix(k, cid+" ") {
+			r := k[len(cid)+1:]
+			seen[r] = true
+			stack = append(stack, r)
+		}
+	}
+	for len(stack) > 0 {
+		r := stack[len(stack)-1]
+		stack = stack[:len(stack)-1]
+		for ref := range snap.Subs[r].Refs {
+			if ref == rid {
+				return true
+			}
+			if !seen[ref] {
+				seen[ref] = true
+				stack = append(stack, ref)
+			}
+		}
+	}
+	return false
+}
+
 // noteRIDs lists the resource ids the hook site was noted for on the connection.
 func (h *histRun) noteRIDs(site, cid string) []string {
 	var out []string
@@ -1282,6 +1312,15 @@ func (h *histRun) checkQuiescent(final bool) {
 				v.Sig += ".afterGet"
 			}
 			if v.Prop == "C02" && v.DropT > 0 && rc.TargetPendingAt(v.RID, v.DropT) {
+				v.Sig += ".droppedWhilePending"
+				if h.pHeld == nil {
+					h.pHeld = map[string]bool{}
+				}
+				h.pHeld[c.CID+" "+v.RID] = true
+			} else if v.Prop == "C02" && !strings.Contains(v.Sig, ".") && h.reachableFromPHeld(c.CID, snaps[c.CID], v.RID) {
+				// finding P: the gateway takes a resource the client dropped while a
+				// request was pending as still held - and with it everything that
+				// resource refers to
 				v.Sig += ".droppedWhilePending"
 			}
 			// a resource (or its holder) that was carried by an ignored stray event
